@@ -102,8 +102,8 @@ Fixpoint all_ok (l : list (result str)) : result (list str) :=
 
 Definition s_lower : str := [108; 111; 119; 101; 114; 40].   (* lower( *)
 
-(* position codes: 2 = IN list, 9 = IN list whose type has bind_expression lower(...), anything
-   else = a single literal.  mode: 0 literal_binds, 1 literal_execute.
+(* position codes: 2 = IN list, 9 = IN list whose type has bind_expression lower(...), 10 = operand of
+   unary minus, anything else = a single literal.  mode: 0 literal_binds, 1 literal_execute.
    Observation: [0; text] | [1] CompileError | [3] KeyError (numeric paramstyle: the %(name)s
    pass finds its pattern inside the rendered text; the harness statements have no such name) *)
 Definition observe (p : paramstyle) (mode : Z) (text : str) : tree :=
@@ -126,6 +126,9 @@ Definition render_case (d : dialect) (fl : flags) (p : paramstyle) (mode pos : Z
       | _ => observe p mode (if Z.eqb mode 0 then render_in_list_be s_lower [41] lits
                              else process_expanding_be s_lower [41] lits)
       end
+    else if Z.eqb pos 10 then
+      (* operand of unary minus: the observation includes the operator *)
+      match lits with [x] => observe p mode (render_neg (Z.eqb mode 1) x) | _ => bad_input end
     else match lits with [x] => observe p mode x | _ => bad_input end
   end.
 
